@@ -4,6 +4,7 @@ CONSTANTS
   Types = {"NC", "Sp", "CStr"}
   Vals = {1, 2}
   Fuses = {0, 1}
+  AFuses = {0}
   MCCastForms <- FewCastForms
   CountOps = FALSE
 VIEW absvars
